@@ -185,6 +185,8 @@ func main() {
 		cmdBitmap(os.Args[2:])
 	case "finding":
 		cmdFinding(os.Args[2:])
+	case "wire":
+		cmdWire(os.Args[2:])
 	default:
 		fmt.Fprintln(os.Stderr, "unknown engine", os.Args[1])
 		os.Exit(2)
